@@ -6,6 +6,16 @@ import os
 HERE = os.path.dirname(os.path.dirname(os.path.abspath(__file__)))
 
 CHECKS = {
+    "C01": dict(
+        category="model_checking", design_ref="4/C01", engine="linear",
+        technique="TLC-checked symbol tables of the documented PDEs (Symbols, MC_Linear) + replay of every table row and every Step/StepBack/StepN behaviour into the real steppers",
+        text=("Symbols.tla transcribes the documented linear PDEs as term lists with symbolic real parameters; MC_Linear walks every stored index of "
+              "every (class, mixing flag, D, N) and checks Hermitian consistency, mean preservation, sign/reversibility structure, class inclusions "
+              "and the additivity of the time counter under Step/StepBack/StepN. Every row is evaluated at random real parameters (scalar, per-axis, "
+              "SPD matrix; L over decades; dt up to 1e6 and negative) and compared with step_fourier(ones) of the real stepper at every stored index and "
+              "with stepper(u) on Nyquist-free states; every TLC behaviour is replayed with steppers for dt, -dt and n*dt and compared with the exact "
+              "solution after each action; the wave stepper against the exact per-mode 2x2 solution; normalized/difficulty linear interfaces against the same table."),
+        note="TLC, dump parser, numpy complex exp/cos/sin as evaluator of the transcendental atoms, fft conventions bound by C04; tolerance 1e-11(1+|Im z|)"),
     "C04": dict(
         category="model_checking", design_ref="4/C04", engine="layout",
         technique="TLC-exhaustive layout/FFT tables (MC_Layout, MC_Fft) replayed entry-by-entry into exponax",
@@ -67,6 +77,8 @@ def main():
         "engines": [
             {"name": "layout", "path": "spec/MC_Layout.tla spec/MC_Fft.tla harness/checks/c04.py", "serves_properties": ["C04"],
              "kind_free_text": "TLC exhaustive tables + spec->code replay"},
+            {"name": "linear", "path": "spec/Symbols.tla spec/MC_Linear.tla harness/linear.py harness/checks/c01.py", "serves_properties": ["C01"],
+             "kind_free_text": "TLC symbol tables + behaviours, spec->code replay"},
             {"name": "rollout", "path": "spec/MC_Rollout.tla spec/Trace_Rollout.tla harness/checks/c14.py", "serves_properties": ["C14"],
              "kind_free_text": "TLC state machine + replay + trace validation"},
         ],
